@@ -38,6 +38,7 @@ def run(F, rep, tier):
     variable_before_scope_rule(F, rep)
     binding_rule(F, rep)
     key_coverage_rule(F, rep)
+    normalisation_rule(F, rep, tier)
     # premise (C13): parser actions leave the parsing scope balanced - a context popped or left behind by one construct changes which names the lexer knows afterwards
     from props import c13
     r3 = rep.rule("R13.3", "parser actions composed along the grammar: every start alternative leaves the parsing scope at its entry depth; names are added at depth >= 1 only")
@@ -737,3 +738,77 @@ def own_key_insert(h):
             if "keys" in names or "iter" in names:
                 return True
     return verdict
+
+
+# ====================================================================================================== R10.5
+SYMBOLS = [".", "/", "-", "'", "+", "*"]
+
+
+def normalisation_rule(F, rep, tier="quick"):
+    """The lexer tests `flatten_name_parts(parts[..k])` for membership in the flattened scope keys; the keys are the texts of `Name`s, which are built from the same parts by
+    Name::new. A bound name is found only if the two normalisations give the same text. Both functions are folded (abstract-string engine, loops over the concrete part list
+    unrolled; nothing of the repository runs) on every sequence of up to 4 parts over one word representative and the six additional name symbols - the functions look at a part
+    only through trim / is_empty / equality with those symbols and concatenation, so one word stands for all words."""
+    import itertools
+    import strfold
+    from hireval import Evaluator, TooManyPaths
+    rid = rep.rule("R10.5", "the name text the lexer looks up (flatten_name_parts) equals the text of the Name built from the same parts (Name::new), for every sequence of words and additional symbols")
+    flat = [n for n in F.hir if n.startswith("dmntk_feel_parser::lexer::") and n.endswith("::flatten_name_parts")]
+    new = "dmntk_feel::names::Name::new"
+    if not flat:
+        rep.undecided(rid, "normalisation", "no function flatten_name_parts in the lexer (the candidate text is built otherwise)")
+        return
+    if new not in F.hir:
+        rep.missing_anchor(rid, new)
+        return
+    flat = flat[0]
+
+    def fold(name, parts):
+        ev = Evaluator(F, ints=True, max_paths=300)
+        sf = strfold.StrFold(ev)
+
+        def hook(callee, args, st):
+            c = callee or ""
+            if c.endswith("::trim") and args and strfold.as_str(args[0]) is not None and all(a[0] == "c" for a in strfold.as_str(args[0])[1]):
+                return ("lit", "".join(a[1] for a in strfold.as_str(args[0])[1]).strip())
+            return sf.hook(callee, args, st)
+        ev.call_hook = hook
+        ev.inline = {n for n in F.hir if (n.startswith("dmntk_feel::names::") or n.startswith("<dmntk_feel::names::Name as ") or n.startswith("dmntk_feel_parser::lexer::")) and "{closure" not in n and n != name}
+        h = F.hir[name]
+        try:
+            outs = ev.run(h["params"], h["body"], [("array", [("lit", x) for x in parts])])
+        except (TooManyPaths, ValueError, KeyError, RecursionError):
+            return None
+        vals = set()
+        for _, v in outs:
+            while isinstance(v, tuple) and v[0] == "v" and len(v[2]) == 1:
+                v = v[2][0]          # Name(text)
+            t = strfold.as_str(v)
+            if t is None or not all(a[0] == "c" for a in t[1]):
+                return None
+            vals.add("".join(a[1] for a in t[1]))
+        return vals.pop() if len(vals) == 1 else None
+    alphabet = ["w"] + SYMBOLS
+    maxlen = 4 if tier == "thorough" else 3
+    n, und, diffs = 0, 0, []
+    for k in range(1, maxlen + 1):
+        for seq in itertools.product(alphabet, repeat=k):
+            if seq[0] != "w":
+                continue            # a name starts with a name start character
+            n += 1
+            a, b = fold(flat, list(seq)), fold(new, list(seq))
+            if a is None or b is None:
+                und += 1
+            elif a != b and len(diffs) < 4:
+                diffs.append((seq, a, b))
+    h = F.hir[flat]
+    rep.analysed["R10.5 part sequences folded"] = n
+    if diffs:
+        # key: the shortest disagreeing sequence
+        seq, a, b = diffs[0]
+        rep.violation(rid, "normalisation:%s" % " ".join(seq), "for the parts %s the lexer looks up `%s` but the Name built from them - the key in the scope - reads `%s`%s: such a bound name is never found"
+                      % (list(seq), a, b, " (also: %s)" % "; ".join("%s -> `%s` / `%s`" % (" ".join(s_), x, y) for s_, x, y in diffs[1:]) if len(diffs) > 1 else ""), "%s:%s" % (h["file"], h["line"]))
+    elif und:
+        rep.undecided(rid, "normalisation", "%d of %d part sequences do not fold to a literal text" % (und, n))
+    else:
+        rep.ok(rid, "normalisation", "%d part sequences (up to %d parts over a word and the six symbols): identical texts" % (n, maxlen))
